@@ -42,6 +42,7 @@ CONSTANTS Names,      \* global names, e.g. {"a","b","c"}
           MaxExt,     \* MIR_load_external calls per behaviour
           MaxToggle,  \* MIR_set_func_redef_permission calls per behaviour
           IllMaxStep, \* modules whose construction fails (history independent) are tried only in the first IllMaxStep steps
+          AvoidErrors,\* simulation only: do not take steps that end in an error (long successful histories)
           Depth       \* length of the behaviour
 
 VARIABLES env,        \* [Names -> Def]   the table of visible definitions ("environment module")
@@ -243,6 +244,7 @@ Next ==
      \/ \E b \in BOOLEAN : SetPermit(b)
      \/ Link(FALSE, {})
      \/ \E R \in SUBSET Undefined : Link(TRUE, R)
+  /\ AvoidErrors => err' = ""
 
 Spec == Init /\ [][Next]_vars
 
